@@ -286,6 +286,16 @@ def world_rule(model: Model, res, scope: Tuple[str, ...] = (), rule: str = "R-WO
                     continue
                 if (c.name, nm) in MODELLED_DUNDERS or (c.name in CONTAINER_CLASSES and nm in CONTAINER_DUNDERS):
                     continue
+                if nm == "__deepcopy__" and not any(
+                        isinstance(x, ast.Call) and ((isinstance(x.func, ast.Attribute) and x.func.attr == "deepcopy")
+                                                     or (isinstance(x.func, ast.Name) and x.func.id == "deepcopy"))
+                        for x in ast.walk(f.node)):
+                    # the per-strategy / per-run isolation (BacktestManager, Actuator.reset, snapshots) rests on copy.deepcopy giving
+                    # independent state; a __deepcopy__ that never deep-copies anything hands the same mutable state to every copy
+                    findings.append(("W4", f.loc(), f.qualname, "__deepcopy__ without any deep copy",
+                                     f"{c.name}.__deepcopy__ never calls deepcopy on anything: every `copy.deepcopy` of a {c.name} (the copies "
+                                     f"BacktestManager gives each strategy, snapshots) shares the original's mutable state"))
+                    continue
                 refuse.append(("W4", f.loc(), f.qualname, nm,
                                f"{c.name} defines `{nm}`: expressions over its instances (operators, comparisons, truth value, attribute access, "
                                f"copying, pickling) no longer mean what the evaluator assumes, so nothing that touches {c.name} can be decided"))
